@@ -315,3 +315,27 @@ func langPagedApp(t *tape.Tape) *app.App {
 	a.Index()
 	return a
 }
+
+// deepEndApp is deepApp (with a loaded value on every level) plus an end node reachable from every
+// level with selector "7": a session can end gracefully at any depth.
+func deepEndApp(t *tape.Tape) *app.App {
+	a := deepApp(t)
+	hasLoad := len(a.Ext) > 0
+	if !hasLoad {
+		a.Ext = append(a.Ext, &app.ExtSym{Name: "dv", Size: 8, Script: []app.ExtBehav{{Len: -1}}})
+	}
+	for _, n := range a.Nodes {
+		if n.Name == "_catch" {
+			continue
+		}
+		if !hasLoad {
+			// a loaded value on every level, so that a restart over stale scopes shows
+			n.Code = append([]app.Inst{{Op: app.LOAD, A: "dv", N: 8}, {Op: app.MAP, A: "dv"}}, n.Code...)
+			n.Tpl[""] = strings.TrimSuffix(n.Tpl[""], "$") + " dv=[{{.dv}}]$"
+		}
+		n.Code = append(n.Code, app.Inst{Op: app.INCMP, A: "nend", B: "7"})
+	}
+	a.Nodes = append(a.Nodes, &app.Node{Name: "nend", Kind: app.KEndGraceful, Code: []app.Inst{{Op: app.HALT}}, Tpl: map[string]string{"": "@nend|bye$"}})
+	a.Index()
+	return a
+}
